@@ -933,7 +933,9 @@ func blockHasEffect(b *ssa.BasicBlock) bool {
 // ---------------------------------------------------------------- R11e / R11f (C11): query wrappers are transparent
 
 // c11QueryWrappers: R11e — MatchAll collects every node the engine yields: the append of the iterator's current node is
-// control-dependent only on MoveNext() (no de-duplication or filtering in the wrapper). R11f — the expression string
+// control-dependent only on MoveNext() (no de-duplication or filtering in the wrapper); the MoveNext() answer may reach
+// the branch through a phi, a negation, or the boolean result of an iterator helper / iterator closure of the repository
+// whose every return is gated by MoveNext() alone (g5IsMoveNext). R11f — the expression string
 // handed to the xpath compiler (directly or through the go-corelib cache) is the wrapper's own parameter, untransformed.
 func c11QueryWrappers(c *core.Ctx) {
 	p := c.Pkg("idr")
